@@ -18,6 +18,9 @@ func (rn *runner) buildCase(sh shape, m mutation, scriptLen int) (*sCase, bool, 
 	bc := n.BC
 	magic := rn.facts.Magic
 	sp := sh.Spec(n)
+	if sp == nil {
+		return nil, false, nil
+	}
 	if scriptLen > 0 {
 		sp.Script = nops(scriptLen)
 	}
@@ -47,6 +50,10 @@ func (rn *runner) buildCase(sh shape, m mutation, scriptLen int) (*sCase, bool, 
 			p, _, err := build(n, ps)
 			if err != nil {
 				return nil, false, err
+			}
+			// a variant with pooled transactions exists only where those can be pooled
+			if ok, _ := valid(rn.facts, &sCase{Tx: p, Need: p.NetworkFee}); !ok {
+				return nil, false, nil
 			}
 			c.Pre = append(c.Pre, p)
 		}
@@ -90,7 +97,9 @@ func (rn *runner) runCase(shapeName string, c *sCase) {
 			e.f.add(fmt.Sprintf("sound:panic:%s:%s:%s:%s", c.Rule, shapeName, rn.st.Name, path), rec(path, v))
 			continue
 		}
-		if v.OK != c.Want {
+		if c.NoDemand != "" {
+			e.out("sound", "no-demand:"+c.Rule+"->"+v.Class)
+		} else if v.OK != c.Want {
 			e.f.add(fmt.Sprintf("sound:%s:%s:%s:%s", c.Rule, shapeName, rn.st.Name, path), rec(path, v))
 		}
 		if !v.OK {
@@ -111,9 +120,12 @@ func (rn *runner) runCase(shapeName string, c *sCase) {
 		v := rn.verify(c.Tx)
 		e.count.sound.Inc()
 		e.out("sound", c.Rule+"->"+v.Class)
-		if v.OK != c.Want {
+		if c.NoDemand == "" && v.OK != c.Want {
 			e.f.add(fmt.Sprintf("sound:%s:%s:%s:%s", c.Rule, shapeName, rn.st.Name, "verifytx"), rec("verifytx", v))
 		}
+	}
+	if c.Want && c.NoDemand == "" && len(c.Pre) == 0 && res[pathFromBytes].OK {
+		rn.endToEnd(shapeName, c)
 	}
 	e.count.states.Add("sound/" + rn.st.Name + "/" + shapeName + "/" + c.Rule)
 	if len(canon) < 400 {
@@ -225,14 +237,27 @@ func (e *env) runSound() map[string]any {
 		sh    *shape
 		level bool
 	}
-	shs := shapes()
+	shs := append(shapes(), extShapes()...)
 	var jobs []job
-	for _, sn := range soundStates {
+	states := append([]string{}, soundStates...)
+	for _, s := range extStates() {
+		states = append(states, s.Name)
+	}
+	states = append(append(states, e.mtbNames...), e.comNames...)
+	perState := map[string]int{}
+	for _, sn := range states {
 		st := e.state(sn)
-		for i := range shs {
-			jobs = append(jobs, job{st: st, sh: &shs[i]})
+		if !st.LevelOnly {
+			for i := range shs {
+				if runsIn(&shs[i], st) {
+					jobs = append(jobs, job{st: st, sh: &shs[i]})
+					perState[sn]++
+				}
+			}
 		}
-		jobs = append(jobs, job{st: st, level: true})
+		if st.Only == nil {
+			jobs = append(jobs, job{st: st, level: true})
+		}
 	}
 	nmut := len(mutations(util.Uint256{}))
 	e.r.Parallel(len(jobs), func(i int) {
@@ -269,7 +294,7 @@ func (e *env) runSound() map[string]any {
 			return
 		}
 		onchain := rn.lastOnChain().Hash()
-		ms := mutations(onchain)
+		ms := append(mutations(onchain), rn.extMutations()...)
 		for _, m := range ms {
 			if e.r.Expired() {
 				return
@@ -289,7 +314,7 @@ func (e *env) runSound() map[string]any {
 	for _, s := range shs {
 		names = append(names, s.Name)
 	}
-	return map[string]any{"states": soundStates, "shapes": names, "variants_per_shape_max": nmut, "jobs": len(jobs)}
+	return map[string]any{"states": states, "shapes": names, "shapes_per_state": perState, "variants_per_shape_max": nmut, "jobs": len(jobs)}
 }
 
 // stateLevel submits the transactions that are special in the runner's state:
@@ -308,7 +333,11 @@ func (rn *runner) stateLevel() {
 	}
 	rn.runCase("state-level", mk("duplicate-of-onchain-tx", rn.lastOnChain()))
 	for _, role := range []string{"by-sender", "by-cosigner", "second-signer", "by-stranger", "onchain-X", "onchain-Y"} {
-		b := rn.e.cast.get(role)
+		cast := rn.e.cast
+		if rn.st.Sc != nil && rn.st.Sc == rn.e.scMTB {
+			cast = rn.e.castMTB
+		}
+		b := cast.get(role)
 		if b == nil {
 			continue
 		}
